@@ -29,6 +29,23 @@ PROVIDER_CONFIGS = [("self_on_function", {"kind": "self", "scope": {"n": 5}}, Fa
                     ("provider_object", {"kind": "free", "scope": {"n": 5}}, False), ("not_a_provider", {"kind": "free", "scope": "bad"}, False)]
 
 
+def probe_dotenv() -> dict:
+    """No DLTYPE_* variable in the environment, but a .env file in the working directory that sets them: files are not the
+    environment (the property speaks of the environment variable)."""
+    import tempfile
+
+    env = {k: v for k, v in os.environ.items() if not k.upper().startswith("DLTYPE_")}
+    with tempfile.TemporaryDirectory() as d:
+        with open(os.path.join(d, ".env"), "w") as f:
+            f.write("DLTYPE_DISABLE=1\nDLTYPE_DEBUG_MODE=1\ndltype_disable=true\n")
+        env["PYTHONPATH"] = os.environ.get("PYTHONPATH", "")
+        r = subprocess.run([PY, "-m", "harness.probe_env", "WARNING"], capture_output=True, text=True, cwd=d, env=env, timeout=300)
+    for line in r.stdout.splitlines():
+        if line.startswith("PROBE "):
+            return json.loads(line[6:])
+    return {"import": "probe-failed", "stderr": r.stderr[-400:]}
+
+
 def probe(cfg) -> dict:
     dis, dbg, lvl = cfg
     env = {k: v for k, v in os.environ.items() if not k.upper().startswith("DLTYPE_")}
@@ -118,4 +135,19 @@ def run(tier: str, seed: int, rep: Report, model: Model) -> dict:
                 want = base[kind] if en else ["accept"] * len(base[kind])
                 if r[kind] != want:
                     rep.violation({"what": "verdicts / reports differ from the reference corpus outcome" if en else "a check was performed although disabled", "expected": want, **rr})
+    # a .env file in the working directory is not the environment
+    de = probe_dotenv()
+    rep.case("dotenv_file_in_cwd", {"import": de.get("import")})
+    rep.count("dotenv_probe:" + str(de.get("import")))
+    if de.get("import") != "ok":
+        rep.violation({"what": "importing dltype failed in a directory that holds a .env file", "result": de})
+    else:
+        for label in ("default", "True"):
+            if de[label] != ref[label]:
+                rep.violation({"what": "a .env file in the working directory changed what the decorators do (only the environment variables may)",
+                               "enabled_arg": label, "with_dotenv": {k: de[label][k] for k in ("fn_identity", "dc_identity", "nt_identity", "fn")},
+                               "reference": {k: ref[label][k] for k in ("fn_identity", "dc_identity", "nt_identity", "fn")}})
+                break
+        if bool(de.get("DEBUG_MODE")) != bool(ref.get("DEBUG_MODE")):
+            rep.violation({"what": "a .env file in the working directory switched DEBUG_MODE", "with_dotenv": de.get("DEBUG_MODE")})
     return {"reference_vector": base.get("fn")}
